@@ -604,6 +604,8 @@ def _norm1(e, ctx):
                 return ('un', 'not', ('cmp', 'in', a[2][0], a[1][1]))
             if a[0] == 'phi':
                 return ('phi', a[1], ('cmp', 'is', a[2], b), ('cmp', 'is', a[3], b))
+            if a[0] == 'attr' and a[1] == ('name', 'self') and a[2] in getattr(ctx, 'never_none', ()):
+                return ('const', False)             # an attribute the component only ever binds to a created object
             if a[0] == 'call' and (_cls_name(a[1]) or "x")[:1].isupper():
                 return ('const', False)             # the result of a constructor call is never None
             if a[0] in ('tuple', 'list', 'dict', 'set', 'slice', 'fstr') or (a[0] == 'call' and a[1] == ('name', 'slice')):
